@@ -147,6 +147,9 @@ func C18(c *Ctx) {
 				}
 				cs.AllowInvalid = o == 3
 				cs.NoRecover = o == 4
+				if u.G.UsesState || !u.HasFlag("-optimize-parser") {
+					cs.Init = []int{0, 4, 8, 0, 5}[(ii+o)%5] // different key sets per call (InitState)
+				}
 				cases = append(cases, cs)
 			}
 		}
